@@ -100,6 +100,22 @@ class Event:
     id: typing.Union[uuid.UUID, str]
     at: typing.Union[datetime.datetime, str]
     n: typing.Union[typing.List[int], typing.List[str]] = dataclasses.field(default_factory=list)
+import collections
+class Document(typing.TypedDict):
+    # keys of a TypedDict are wire keys whatever they look like (`_id` of a document store)
+    _id: uuid.UUID
+    title: str
+class Revision(typing.TypedDict):
+    number: int
+    _etag: typing.NotRequired[str]
+Row = collections.namedtuple("Row", ["class", "value"], rename=True)      # fields _0, value
+class TypedRow(typing.NamedTuple):
+    key: str
+    row: Row
+@dataclasses.dataclass
+class Shelf:
+    docs: typing.List[Document]
+    rev: Revision
 """
 U1, U2 = "uuid.UUID('12345678-1234-5678-1234-567812345678')", "uuid.UUID('00000000-0000-4000-8000-000000000001')"
 DT = "datetime.datetime(2024, 2, 29, 12, 30, 15, 250, tzinfo=datetime.timezone.utc)"
@@ -108,7 +124,13 @@ SEQ_CASES = [("typing.Union[uuid.UUID, str]", [U1, "'hello'", U2, "'x'", U1]),
              ("typing.Union[typing.List[int], typing.List[str]]", ["[1, 2]", "['a', 'b']", "[3, 4]", "[]", "[5]"]),
              ("typing.Dict[str, typing.Union[uuid.UUID, str]]", ["{'k': " + U1 + "}", "{'k': 'text'}", "{'k': " + U2 + ", 'j': 'w'}"]),
              ("Event", [f"Event({U1}, {DT}, [1])", "Event('plain', 'later', ['a'])", f"Event({U2}, {DT}, [2, 3])"]),
-             ("typing.Optional[typing.Union[int, str]]", ["1", "'a'", "None", "2"])]
+             ("typing.Optional[typing.Union[int, str]]", ["1", "'a'", "None", "2"]),
+             # members whose NAME starts with an underscore but which are on the wire: TypedDict keys, renamed named-tuple fields
+             ("Document", ["{'_id': " + U1 + ", 'title': 'Hello'}", "{'_id': " + U2 + ", 'title': ''}"]),
+             ("Revision", ["{'number': 1}", "{'number': 2, '_etag': 'W/123'}"]),
+             ("Row", ["Row('kw', 3)", "Row(None, [1])"]), ("TypedRow", ["TypedRow('k', Row('a', 1))"]),
+             ("typing.Dict[str, typing.List[Document]]", ["{'docs': [{'_id': " + U1 + ", 'title': 't'}]}"]),
+             ("Shelf", ["Shelf([{'_id': " + U2 + ", 'title': 't'}], {'number': 3, '_etag': 'e'})"])]
 
 
 def _seq_child(case):
@@ -121,7 +143,8 @@ def _seq_child(case):
     mod = types.ModuleType("vm_c02_seq")
     sys.modules["vm_c02_seq"] = mod
     ns = mod.__dict__
-    exec(SEQ_SRC, ns)
+    # (compiled without this file's postponed annotations: NotRequired inside a STRING annotation is invisible to TypedDict)
+    exec(compile(SEQ_SRC, "vm_c02_seq.py", "exec", dont_inherit=True), ns)
     t = eval(case[0], ns)
     bad = []
     for dec_name, enc_f, dec_f in (("default", None, None), ("stdlib", lambda o: _json.dumps(o).encode(), _json.loads)):
